@@ -1,6 +1,6 @@
 //! C15: replays NameMapSpec REPLAY lines and PAIRS verdict vectors against wac_types::names.
 use serde_json::{json, Value};
-use wac_types::{are_semver_compatible, NameMap, NameMapNoIntern};
+use wac_types::{are_semver_compatible, NameMap, NameMapIntern, NameMapNoIntern};
 
 pub struct NameUniverses {
     pub full: Vec<String>,
@@ -20,11 +20,44 @@ impl NameUniverses {
     }
 }
 
-/// `{"seq": [[name, shadow, res]...], "gets": [[allowed values]...]}` (indices are 1-based)
+/// An interner in the proper sense: keys are numbers handed out by `intern`, and `lookup` answers
+/// `None` for a string that was never interned (unlike `NameMapNoIntern`, which knows every string).
+#[derive(Default)]
+pub struct CountingIntern {
+    ids: std::collections::HashMap<String, u32>,
+}
+
+impl NameMapIntern for CountingIntern {
+    type Key = u32;
+    fn intern(&mut self, s: &str) -> u32 {
+        let n = self.ids.len() as u32;
+        *self.ids.entry(s.to_string()).or_insert(n)
+    }
+    fn lookup(&self, s: &str) -> Option<u32> {
+        self.ids.get(s).copied()
+    }
+}
+
+/// `{"seq": [[name, shadow, res]...], "gets": [[allowed values]...]}` (indices are 1-based).  The
+/// contract is the same for every interner: the line is replayed with both.
 pub fn replay_map_line(u: &[String], line: &Value) -> Vec<Value> {
+    let mut findings = replay_map_line_with(u, line, NameMapNoIntern);
+    if findings.is_empty() {
+        findings = replay_map_line_with(u, line, CountingIntern::default());
+        for f in findings.iter_mut() {
+            f["interner"] = json!("one whose lookup answers None for strings never interned");
+        }
+    }
+    findings
+}
+
+fn replay_map_line_with<I>(u: &[String], line: &Value, mut cx: I) -> Vec<Value>
+where
+    I: NameMapIntern,
+    I::Key: Clone + std::hash::Hash + Eq + Ord,
+{
     let mut findings = Vec::new();
-    let mut map: NameMap<String, u64> = NameMap::default();
-    let mut cx = NameMapNoIntern;
+    let mut map: NameMap<I::Key, u64> = NameMap::default();
     let mut count = 0u64;
     let seq = line["seq"].as_array().cloned().unwrap_or_default();
     for (step, s) in seq.iter().enumerate() {
